@@ -15,6 +15,7 @@ import (
 	"github.com/cloudwego/hertz/pkg/app"
 	"github.com/cloudwego/hertz/pkg/app/middlewares/server/recovery"
 	"github.com/cloudwego/hertz/pkg/common/config"
+	"github.com/cloudwego/hertz/pkg/network/standard"
 	"github.com/cloudwego/hertz/pkg/protocol"
 	"github.com/cloudwego/hertz/pkg/route"
 
@@ -374,6 +375,9 @@ func diffKey(ref, got string) string {
 }
 
 func work(w *mon.W) {
+	// poison-on-free sanitiser (hook H3): a buffer block that is recycled while a request
+	// still refers to it shows up as 0xDD bytes in the handler views
+	standard.VerifPoisonEnabled = true
 	// fresh reference
 	fresh := newHarness()
 	fresh.slots["ref000000000"] = &slot{}
